@@ -26,7 +26,9 @@ def _values_for(value, rng, pool):
                 ('doubled', t(bytes(value) * 2))]
     if isinstance(value, str):
         return [('len1', 'a'), ('len7', 'abc-123'), ('len255', 'x' * 255), ('len256', 'y' * 256), ('len300', 'z1' * 150), ('len600', 'w' * 600),
-                ('doubled', value + value)]
+                ('doubled', value + value),
+                # a last character that is also a separator of the enclosing grammar
+                ('ends-eq', (value or 'a') + '='), ('ends-colon', (value or 'a') + ':'), ('ends-slash', (value or 'a') + '/')]
     if isinstance(value, datetime.datetime):
         utc = datetime.timezone.utc
         # aware datetimes only: the parsers produce aware (UTC) datetimes, a naive one has no defined instant
@@ -46,6 +48,9 @@ def _values_for(value, rng, pool):
         if extra:
             outs.append(('plus-pool', items + extra[:2]))
             outs.append(('pool1', extra[:1]))
+            for x in extra[2:14]:
+                if not any(type(y) is type(x) for y in items):
+                    outs.append(('only-' + type(x).__name__, [x]))
         return [(l, o) for l, o in outs if o != items]
     if type(value) in (list, tuple) and value:
         outs = [('first', type(value)(value[:1])), ('doubled', type(value)(list(value) + list(value))), ('reversed', type(value)(value[::-1]))]
